@@ -23,7 +23,7 @@
    the endpoints distinct, and soundness of list_eqb/tout_eqb. *)
 From Coq Require Import List NArith ZArith Bool Sorted.
 From Verif.Common Require Import Labels.
-From Verif.C03 Require Import Model Spec Witness Order BT Split Resolver SpecProps Sorter Refine Char Main Dirty.
+From Verif.C03 Require Import Model Spec Witness Order BT Split Resolver SpecProps Sorter Refine Char Main Dirty Pipe PipeProofs Tiebreak.
 Import ListNotations.
 Open Scope N_scope.
 
@@ -58,12 +58,35 @@ Theorem c03_spec_orders_are_go_orders :
 Proof. exact (conj tier_before_is_tier_less pol_before_is_polkv_less_lex). Qed.
 Print Assumptions c03_spec_orders_are_go_orders.
 
-(* the pinned joined-string tie-break agrees with name order whenever the two names differ at a position both
-   have (it differs only when one name extends the other) *)
-Theorem c03_tiebreak_agrees_partial : forall a b,
+(* CLOSED FORM of the pinned joined-string tie-break (key components without '/'): it is the lexicographic order on
+   (name, namespace, kind) in which the END of a name / namespace counts as the byte '/' instead of sorting before
+   every byte (sep_ltb) *)
+Theorem c03_tiebreak_closed_form : forall a b, key_ok a -> key_ok b ->
+  key_ltb_str a b =
+  sep_ltb (pk_name a) (pk_name b) (sep_ltb (pk_ns a) (pk_ns b) (bytes_ltb (pk_kind a) (pk_kind b))).
+Proof. exact key_ltb_str_closed_form. Qed.
+Print Assumptions c03_tiebreak_closed_form.
+
+(* hence it IS (name, namespace, kind) order when names and namespaces have no byte below '0' (no '-', no '.'),
+   and whenever the two names differ at a position both have ... *)
+Theorem c03_tiebreak_is_name_order_without_low_bytes : forall a b, key_ok a -> key_ok b ->
+  high (pk_name a) -> high (pk_name b) -> high (pk_ns a) -> high (pk_ns b) ->
+  key_ltb_str a b = key_ltb_lex a b.
+Proof. exact key_ltb_str_is_lex_high. Qed.
+Print Assumptions c03_tiebreak_is_name_order_without_low_bytes.
+
+Theorem c03_tiebreak_agrees_when_names_diverge : forall a b,
   diverge (pk_name a) (pk_name b) = true -> key_ltb_str a b = key_ltb_lex a b.
 Proof. exact key_ltb_str_is_lex_when_names_diverge. Qed.
-Print Assumptions c03_tiebreak_agrees_partial.
+Print Assumptions c03_tiebreak_agrees_when_names_diverge.
+
+(* ... and it is the REVERSE of name order exactly in the known-finding class: one name extending the other by a
+   byte below '/' ('-' or '.') *)
+Theorem c03_tiebreak_disagrees_on_low_extension : forall a b c r, key_ok a -> key_ok b -> (c < slash)%N ->
+  pk_name b = pk_name a ++ c :: r ->
+  key_ltb_str a b = false /\ key_ltb_str b a = true /\ key_ltb_lex a b = true /\ key_ltb_lex b a = false.
+Proof. exact key_ltb_str_disagrees. Qed.
+Print Assumptions c03_tiebreak_disagrees_on_low_extension.
 
 (* ... and is NOT name order otherwise: "a-b" is emitted before "a" *)
 Theorem c03_tiebreak_name_order_refuted : forall fx,
@@ -253,6 +276,33 @@ Theorem c03_policy_order : forall v ops ord e ts t,
   In (e, Some ts) (flush_out v ops ord) -> In t ts -> SSb pol_before (to_pols t).
 Proof. exact emitted_policy_order. Qed.
 Print Assumptions c03_policy_order.
+
+(* ---------------------------------------------------------------- the upstream: selectors and effective labels *)
+
+(* datastore-level histories (endpoints with own labels + profile ids, profile label resources, policies with
+   selectors, tiers).  `translate h` = the resolver events the ActiveRulesCalculator + label inheritance index turn
+   them into (match diff per event, callbacks ahead of the resolver's own update; C07 proves the real index reports
+   exactly this diff, and the pipeline stream of the driver re-checks it against the real code on every run).
+   The net state of the translated history is the datastore state, with the match relation = selector evaluated
+   on the effective labels *)
+Theorem c03_upstream_net_state : forall h, prel (pnet h) (net (translate h)).
+Proof. exact translate_prel. Qed.
+Print Assumptions c03_upstream_net_state.
+
+(* MAIN at datastore level: every list emitted for a local endpoint is expected_tiers, and contains exactly the
+   policies whose selector matches the endpoint's effective labels (own labels overriding those inherited from its
+   profiles, in ProfileIDs order; a profile whose labels are unknown contributes none) *)
+Theorem c03_pipeline_exact_set : forall v h ord e ts,
+  v_fixed v = true -> Forall (pop_wf v) h -> order_ok v (net (translate h)) ->
+  In (e, Some ts) (flush_out v (translate h) ord) ->
+  blank_missing (net (translate h)) ts = expected_tiers (net (translate h)) e
+  /\ forall k m,
+     (exists t, In t ts /\ In (k, m) (to_pols t)) <->
+     (exists pv sel x, alookup pkey_eqb k (ps_pols (pnet h)) = Some (pv, sel) /\ m = extract_meta pv
+                       /\ alookup N.eqb e (ps_eps (pnet h)) = Some x
+                       /\ eval sel (effective (pe_labels x) (parent_labels (pnet h) x)) = true).
+Proof. exact pipeline_exact_set. Qed.
+Print Assumptions c03_pipeline_exact_set.
 
 (* ---------------------------------------------------------------- dirty marking: no stale view *)
 
